@@ -180,6 +180,38 @@ private theorem cvxEdge_ok (rev : Bool) (len i : Nat) (hi : i < len) :
     refine ⟨Nat.mod_lt _ hl, by omega, Or.inr ?_⟩
     rw [show len - i - 1 + 1 = len - i by omega]
 
+/-- **how a clockwise input is handled**: walking a clockwise polygon backwards (`rev = true`) looks, at every advance
+index `i`, at the same directed edge — the same two points — as walking the reversed (counter-clockwise) vertex list forwards.
+So the orientation tests of the advance rule (`cross`, `a2_b2_b1`, `a1_b1_b2`, `segments_intersection2d`) receive identical
+arguments for an input and for its reversal; only the vertex indices reported to `out` differ (`b ↦ len - 1 - b`).
+(Building block of the orientation independence of the property; the loop-level statement is not proved — the
+correspondence + oracle run every family in both orientations.) -/
+theorem cvxEdge_reverse (poly : Array (V2 K)) (i : Nat) (hi : i < poly.size) :
+    ppt poly (cvxEdge true poly.size i).1 = ppt poly.reverse (cvxEdge false poly.size i).1 ∧
+    ppt poly (cvxEdge true poly.size i).2 = ppt poly.reverse (cvxEdge false poly.size i).2 := by
+  have hl : 0 < poly.size := by omega
+  unfold cvxEdge ppt
+  simp only [if_true, Bool.false_eq_true, if_false]
+  constructor
+  · rcases Nat.eq_zero_or_pos i with h0 | h0
+    · subst h0
+      have e1 : (poly.size - 0) % poly.size = 0 := by simp
+      have e2 : (0 + poly.size - 1) % poly.size = poly.size - 1 := by
+        rw [Nat.zero_add]; exact Nat.mod_eq_of_lt (by omega)
+      rw [e1, e2]
+      simp [Array.getD, hl, Array.getElem_reverse]
+    · have e1 : (poly.size - i) % poly.size = poly.size - i := Nat.mod_eq_of_lt (by omega)
+      have e2 : (i + poly.size - 1) % poly.size = i - 1 := by
+        rw [show i + poly.size - 1 = (i - 1) + poly.size by omega, Nat.add_mod_right]; exact Nat.mod_eq_of_lt (by omega)
+      rw [e1, e2]
+      have h1 : poly.size - i < poly.size := by omega
+      have h2 : i - 1 < poly.size := by omega
+      simp [Array.getD, h1, h2, Array.getElem_reverse]
+      congr 1; omega
+  · have h1 : poly.size - i - 1 < poly.size := by omega
+    simp [Array.getD, h1, hi, Array.getElem_reverse]
+    congr 1; omega
+
 /-- loop invariant: the items emitted so far are well-formed and the two advance indices are in range -/
 def CvxInv (poly1 poly2 : Array (V2 K)) (eps : K) (st : CvxState K) : Prop :=
   (∀ it ∈ st.out, CvxItemOK poly1 poly2 eps it) ∧ (0 < poly1.size → st.i1 < poly1.size) ∧
